@@ -43,12 +43,15 @@ let run_case oc (cid : string) (wf : workflow) (ops : cop list) : eng option =
       incr point in
     let e = ref (apply_op (start ns (z_of_int clock0)) ODrain) in
     flush !e; rows_check !e;
+    let held = ref false in
     List.iter (fun op ->
       (match op with
-       | CAct (t, a, o) -> e := apply_op !e (OAct (nat_of_int t, a, o))
-       | CTick ms -> e := apply_op !e (OTick (z_of_int ms)));
-      e := apply_op !e ODrain;
-      flush !e; rows_check !e) ops;
+       | CAct (t, a, o, hold) -> e := apply_op !e (OAct (nat_of_int t, a, o)); held := hold
+       | CTick ms -> e := apply_op !e (OTick (z_of_int ms)); held := false);
+      (* an action issued while the scheduler is held: its own effects, nothing drained, no quiescent point *)
+      if !held then flush !e
+      else begin e := apply_op !e ODrain; flush !e; rows_check !e end) ops;
+    if !held then begin e := apply_op !e ODrain; flush !e; rows_check !e end;
     List.iteri (fun i (t : task) -> Printf.fprintf oc "case %s: D %d %s %s%s\n" cid i (sname t.t_state) (canon t.t_data) (if t.t_evproc then " hook" else "")) (!e).tasks;
     if (!e).oof then Printf.fprintf oc "case %s: OUT-OF-FUEL\n" cid;
     Some !e
@@ -71,6 +74,7 @@ let run_main path =
 
 (* ---------- generator ---------- *)
 let tmo_mode = ref false
+let hold_mode = ref false
 let counter = ref 0
 let fresh () = incr counter; nat_of_int !counter
 let vnum n = VNum (z_of_int n)
@@ -237,14 +241,24 @@ let gen_main n seed0 maxops out =
            let decl_vals = if supply then List.map (fun k -> (k, vnum (10 + rnd 9))) declared else (match declared with [] -> [] | _ :: tl -> List.map (fun k -> (k, vnum (10 + rnd 9))) tl) in
            let optv = List.fold_left (fun acc (k, x) -> if List.mem_assoc k acc then acc else acc @ [(k, x)]) decl_vals extra in
            let o = aopts @ (match jvars optv with Json.Obj l -> l | _ -> []) in
-           ops := Json.Obj [("t", Json.Int target); ("a", Json.Str aname); ("o", Json.Obj o)] :: !ops;
-           incr nops; bump aname;
+           (* hold mode: four actions in ten are issued while the scheduler is held (the queue keeps what the action scheduled,
+              the next operation meets tasks that have not run yet); one in four of those is then repeated at once, identically *)
+           let hold = !hold_mode && rnd 10 < 4 in
+           let twice = hold && rnd 4 = 0 in
+           let item h = Json.Obj ([("t", Json.Int target); ("a", Json.Str aname); ("o", Json.Obj o)] @ (if h then [("hold", Json.Bool true)] else [])) in
+           ops := item hold :: !ops;
+           incr nops; bump aname; if hold then bump "held";
            e := do_action !e (nat_of_int target) act optv;
-           e := drain_track !e
+           if twice then begin
+             ops := item true :: !ops; incr nops; bump "repeated";
+             e := do_action !e (nat_of_int target) act optv
+           end;
+           if not hold then e := drain_track !e
          end;
          let root = (tk !e O).t_state in
          if is_term root && rnd 3 = 0 then stop := true
        done;
+       e := drain_track !e;
        if (!e).oof then bump "OOF";
        (* the scheduler queue is a bounded channel (100): beyond it the pop order is not FIFO *)
        if !maxq > 60 || List.length (!e).tasks > 250 || (!e).oof then bump "discarded-too-large" else begin
@@ -319,7 +333,7 @@ let oracle_main cases_path trace_path =
        (try
           let wf = workflow_of (Json.get "wf" j) in
           let ops = List.map cop_of (Json.to_list (Json.get "ops" j)) in
-          let codes = List.filter_map (function CAct (t, a, _) -> Some (nat_of_int t, action_code a) | CTick _ -> None) ops in
+          let codes = List.filter_map (function CAct (t, a, _, _) -> Some (nat_of_int t, action_code a) | CTick _ -> None) ops in
           let tmo = (match build_tree fuel_tree wf with Some ns -> tmo_nids_of ns | None -> []) in
           let lines = List.rev (try !(Hashtbl.find tbl cid) with Not_found -> []) in
           let hooks = List.filter_map (fun l -> match String.split_on_char ' ' l with
@@ -336,5 +350,5 @@ let () =
   match Array.to_list Sys.argv with
   | _ :: "run" :: path :: _ -> run_main path
   | _ :: "oracle" :: cases :: trace :: _ -> oracle_main cases trace
-  | _ :: "gen" :: n :: s :: m :: out :: rest -> tmo_mode := List.mem "tmo" rest; gen_main (int_of_string n) (int_of_string s) (int_of_string m) out
+  | _ :: "gen" :: n :: s :: m :: out :: rest -> tmo_mode := List.mem "tmo" rest; hold_mode := List.mem "hold" rest; gen_main (int_of_string n) (int_of_string s) (int_of_string m) out
   | _ -> prerr_endline "usage: driver_engine run <cases.jsonl> | gen <n> <seed> <maxops> <out.jsonl>"; exit 2
